@@ -207,6 +207,10 @@ func genC05(r *core.Rng, id int, fault string) *c05Case {
 		defs = inject(r, s, defs, fault, p)
 		p.Defs = defs
 		p.Layout = gen.RandomLayout(r, len(defs), true)
+		if id%3 == 1 {
+			// files with the same name in different directories, each its own `operations:` entry
+			gen.SpreadDirs(p.Layout)
+		}
 		return &c05Step{Proj: p, Schema: s, Fault: fault}
 	}
 	if fault == "schema-change-history" {
